@@ -87,6 +87,27 @@ func discharge(o *Obligation, idx int, opt dischargeOpts) {
 		return st, out
 	}
 	decided := false
+	if o.Cover {
+		// vacuity guard: only a proof of unsatisfiability is a failure; bounded effort
+		t := 2
+		if opt.allAgree {
+			t = 10
+		}
+		for _, s := range solvers[:1+b2i(opt.allAgree)*2] {
+			st, out := try(s, t)
+			if !decided || st == "unsat" {
+				o.Status, o.Solver, o.RawOut = st, s.name, out
+				decided = true
+			}
+			if st == "unsat" {
+				break
+			}
+		}
+		o.TimeMs = total
+		o.RawOut = strings.Join(answers, " ") + "\n" + truncate(o.RawOut, 500)
+		os.Remove(file)
+		return
+	}
 	for i, s := range solvers {
 		t := opt.timeoutS
 		if i == 0 && !opt.allAgree && t > 3 {
@@ -199,4 +220,11 @@ func parseGetValue(s string) []string {
 		}
 	}
 	return out
+}
+
+func b2i(b bool) int {
+	if b {
+		return 1
+	}
+	return 0
 }
